@@ -1,56 +1,100 @@
 #!/usr/bin/env python3
 """
-seedrecheck.py [ID ...]   — re-run the target property's quick check against every kept seeded
-change (/verif/seeded/<id>/patch.diff): apply to /repo, ./check <property>, undo.  Records the
-outcome under "recheck" in meta.json and prints one line per seed.  /repo must be clean.
+seedrecheck.py [--workers N] [ID ...]   — re-run the target property's quick check against every
+kept seeded change (/verif/seeded/<id>/patch.diff).  Each worker owns a scratch worktree of
+/repo's HEAD and a copy of the harness under /tmp/pgseed/w<k> (VERIF_REPO / VERIF_HARNESS /
+VERIF_OUT), so /repo itself is never touched and the seeds run in parallel.  Records the outcome
+under "recheck" in meta.json and prints one line per seed.
 """
 import json
 import os
+import shutil
 import subprocess
 import sys
+import threading
 import time
 
 ROOT = os.path.dirname(os.path.dirname(os.path.abspath(__file__)))
+BASE = "/tmp/pgseed"
 
 
-def sh(cmd, cwd=None):
-    r = subprocess.run(cmd, shell=True, cwd=cwd, stdout=subprocess.PIPE, stderr=subprocess.STDOUT, text=True,
-                       env=dict(os.environ, CARGO_NET_OFFLINE="true"))
+def sh(cmd, cwd=None, env=None):
+    e = dict(os.environ, CARGO_NET_OFFLINE="true")
+    if env:
+        e.update(env)
+    r = subprocess.run(cmd, shell=True, cwd=cwd, stdout=subprocess.PIPE, stderr=subprocess.STDOUT, text=True, env=e)
     return r.returncode, r.stdout
 
 
-def main():
-    ids = sys.argv[1:] or sorted(os.listdir(os.path.join(ROOT, "seeded")))
-    rc, o = sh("git -C /repo status --short")
-    if o.strip():
-        print("/repo is not clean:", o)
-        sys.exit(2)
-    missed = []
-    for sid in ids:
-        d = os.path.join(ROOT, "seeded", sid)
-        mp = os.path.join(d, "meta.json")
-        if not os.path.exists(mp):
-            continue
-        meta = json.load(open(mp))
-        prop = meta["property"]
-        rc, o = sh("git -C /repo apply %s" % os.path.join(d, "patch.diff"))
-        if rc != 0:
-            print(sid, "patch no longer applies")
-            continue
-        try:
+class Worker(threading.Thread):
+    def __init__(self, k, queue, lock, out):
+        super().__init__()
+        self.k, self.queue, self.lock, self.out = k, queue, lock, out
+        self.dir = os.path.join(BASE, "w%d" % k)
+        self.repo = os.path.join(self.dir, "repo")
+        self.harness = os.path.join(self.dir, "harness")
+
+    def run(self):
+        shutil.rmtree(self.dir, ignore_errors=True)
+        os.makedirs(os.path.join(self.dir, "out"))
+        sh("git -C /repo worktree remove --force %s" % self.repo)
+        rc, o = sh("git -C /repo worktree add -q --detach %s HEAD" % self.repo)
+        assert rc == 0, o
+        os.makedirs(self.harness)
+        shutil.copytree(os.path.join(ROOT, "harness", "src"), os.path.join(self.harness, "src"))
+        toml = open(os.path.join(ROOT, "harness", "Cargo.toml")).read()
+        toml = toml.replace('path = "/repo"', 'path = "%s"' % self.repo).replace('path = "../pinned/proguard-5.5.0"', 'path = "%s/pinned/proguard-5.5.0"' % ROOT)
+        open(os.path.join(self.harness, "Cargo.toml"), "w").write(toml)
+        shutil.copy(os.path.join(ROOT, "harness", "Cargo.lock"), os.path.join(self.harness, "Cargo.lock"))
+        env = {"VERIF_REPO": self.repo, "VERIF_HARNESS": self.harness, "VERIF_OUT": os.path.join(self.dir, "out")}
+        while True:
+            with self.lock:
+                if not self.queue:
+                    break
+                sid = self.queue.pop(0)
+            d = os.path.join(ROOT, "seeded", sid)
+            mp = os.path.join(d, "meta.json")
+            meta = json.load(open(mp))
+            prop = meta["property"]
+            sh("git checkout -- . && git clean -fdq", cwd=self.repo)
+            rc, o = sh("git apply %s" % os.path.join(d, "patch.diff"), cwd=self.repo)
+            if rc != 0:
+                with self.lock:
+                    print(sid, "patch no longer applies", flush=True)
+                    self.out.append((sid, "noapply"))
+                continue
             t0 = time.time()
-            rc, o = sh("./check %s --tier quick" % prop, cwd=ROOT)
+            rc, o = sh("./check %s --tier quick" % prop, cwd=ROOT, env=env)
             viol = [l for l in o.split("\n") if l.startswith("VIOLATION")]
             meta["recheck"] = {"exit": rc, "violation_line": viol[0] if viol else None, "wall_s": round(time.time() - t0, 1),
                                "at": time.strftime("%Y-%m-%d %H:%M:%S")}
-        finally:
-            sh("git -C /repo checkout -- .")
-        json.dump(meta, open(mp, "w"), indent=1)
-        ok = rc == 1 and viol and "no-failing-input-found" not in viol[0]
-        print("%s %s exit=%d %s" % (sid, prop, rc, "caught" if ok else ("caught(no-input)" if rc == 1 else "MISSED")))
-        if rc != 1:
-            missed.append(sid)
-    print("missed:", missed)
+            json.dump(meta, open(mp, "w"), indent=1)
+            kind = "MISSED" if rc != 1 else ("caught(no-input)" if viol and "no-failing-input-found" in viol[0] else "caught")
+            with self.lock:
+                print("%s %s exit=%d %s (%.0fs)" % (sid, prop, rc, kind, time.time() - t0), flush=True)
+                self.out.append((sid, kind))
+        sh("git -C /repo worktree remove --force %s" % self.repo)
+        shutil.rmtree(self.dir, ignore_errors=True)
+
+
+def main():
+    args = sys.argv[1:]
+    workers = 6
+    if args and args[0] == "--workers":
+        workers = int(args[1])
+        args = args[2:]
+    ids = args or sorted(os.listdir(os.path.join(ROOT, "seeded")))
+    ids = [i for i in ids if os.path.exists(os.path.join(ROOT, "seeded", i, "meta.json"))]
+    lock = threading.Lock()
+    out = []
+    ws = [Worker(k, ids, lock, out) for k in range(min(workers, len(ids)))]
+    for w in ws:
+        w.start()
+    for w in ws:
+        w.join()
+    sh("git -C /repo worktree prune")
+    print("missed:", sorted(s for s, k in out if k == "MISSED"))
+    print("caught only through a static obligation:", sorted(s for s, k in out if k == "caught(no-input)"))
 
 
 if __name__ == "__main__":
